@@ -51,6 +51,8 @@ pub mod peer_record;
 pub mod signed_envelope;
 pub mod transport;
 pub mod upgrade;
+#[cfg(libp2p_verif)]
+pub mod verif;
 
 pub use connection::{ConnectedPoint, Endpoint};
 pub use libp2p_identity::PeerId;
